@@ -23,7 +23,10 @@ FLAGS = ["--debug", "--help", "-h", "--version", "--quiet", "--disable-all", "--
 VALUED = {"--explain": ["123", "FURB123", "ABC100", "#x", "12"], "--ignore": None, "--enable": None, "--disable": None,
           "--load": ["mod", "a.b", ""], "--config-file": ["cfg.toml", "x"], "--python-version": ["3.9", "3.12", "3", "3.x", "3.9.1", "", "03.010"],
           "--format": ["text", "github", "json", ""], "--sort": ["filename", "error", "x"], "--timing-stats": ["stats.json", "s"]}
-FILES = ["a.py", "dir/b.py", "c", "gen", "", "-", "-x", "--unknown", "--", "é.py"]
+FILES = ["a.py", "dir/b.py", "c", "gen", "", "-", "-x", "--unknown", "--", "é.py", "--enable=FURB123", "--format=github", "a=b.py", "--quiet=1", "="]
+# what may follow `--`: handed to mypy as it is, whatever it looks like
+MYPY_ARGS = ["--strict", "--cache-dir=/tmp/c", "--exclude=build", "--exclude=-gen", "-v", "--", "--enable", "FURB123", "--enable=FURB123", "x=y", "=",
+             "--python-version", "3.9", "--python-version=3.9", "--quiet", "f.py", "", "--disable-error-code=attr-defined", "a,b", "#x"]
 
 
 class FakeTTY(io.StringIO):
@@ -137,6 +140,8 @@ def gen_argv(rng) -> list[str]:
                     out.append(rng.choice(vals))
         else:
             out.append(rng.choice(FILES if rng.random() < 0.4 else FILES[:3]))
+    if rng.random() < 0.25:
+        out += ["--", *(rng.choice(MYPY_ARGS) for _ in range(rng.randrange(0, 4)))]
     return out
 
 
@@ -349,7 +354,8 @@ def run(ctx: Ctx) -> None:
                        not mism, "; ".join(mism[:5]))
         ctx.extra["tie_cases"] = len(argvs) + len(docs)
     oracles(ctx)
-    ctx.resolve_broken({"cfg_total": "config-crash:", "cli_total": "cli-crash:"}, b.first_error if b else "")
+    ctx.resolve_broken({"cfg_total": "config-crash:", "cli_total": "cli-crash:",
+                        "correspondence: Lib/Cli.v parse_cli / parse_cfg = refurb.settings parse_command_line_args / parse_config_file on every case": ("cli-config-differ:", "cli-crash:", "config-crash:", "position-dependent", "merge-law")}, b.first_error if b else "")
 
 
 def oracles(ctx: Ctx) -> None:
@@ -367,7 +373,7 @@ def oracles(ctx: Ctx) -> None:
         pv = rng.choice([None, "3.9", "3.11"])
         fm = rng.choice([None, "text", "github"])
         sb = rng.choice([None, "filename", "error"])
-        ma = rng.choice([[], ["--strict"], ["--a", "--b"]])
+        ma = rng.choice([[], ["--strict"], ["--a", "--b"], rng.sample(MYPY_ARGS, rng.randrange(1, 4))])
         argv = []
         for c in ig:
             argv += ["--ignore", c]
